@@ -96,6 +96,11 @@ def gen_scenario(rng, *, family='well', cyclic=False, init_env=False,
             make_group(rng, scn)
         else:
             scn['graph_api'] = 'add'
+    if not init_env and rng.random() < 0.06:
+        # everything left to the defaults: backend (10 workers), environment,
+        # configuration, no soft graph when there is no soft edge
+        scn['defaults'] = True
+        scn['workers'] = 10
     if calls > 1:
         # schedule() is called again on the same Scheduler (same backend
         # object): with the environment the first call returned, or afresh
@@ -495,15 +500,29 @@ def run_scenario(scn, chooser, *, max_steps=200000):
     def main():
         objs = build_tasks(scn, mods, recorder)
         hard, soft = build_graphs(scn, mods, objs)
-        env = initial_env(scn, mods)
-        backend = mods['queue'].QueueScheduling(n_workers=scn['workers'])
-        holder['backend'] = backend
-        holder['env'] = env
-        sched = mods['scheduler'].Scheduler(hard_graph=hard, soft_graph=soft,
-                                            backend=backend)
-        sim.mark('schedule-call')
-        config = mods['config'].Config({})
-        got = sched.schedule(env=env, config=config)
+        if scn.get('defaults') and not scn.get('init_env'):
+            if any(t['soft'] for t in scn['tasks']):
+                sched = mods['scheduler'].Scheduler(hard_graph=hard,
+                                                    soft_graph=soft)
+            else:
+                sched = mods['scheduler'].Scheduler(hard_graph=hard)
+            holder['backend'] = sched.backend
+            sim.mark('schedule-call')
+            config = None
+            got = sched.schedule()
+            env = got
+            holder['env'] = env
+        else:
+            env = initial_env(scn, mods)
+            backend = mods['queue'].QueueScheduling(n_workers=scn['workers'])
+            holder['backend'] = backend
+            holder['env'] = env
+            sched = mods['scheduler'].Scheduler(hard_graph=hard,
+                                                soft_graph=soft,
+                                                backend=backend)
+            sim.mark('schedule-call')
+            config = mods['config'].Config({})
+            got = sched.schedule(env=env, config=config)
         for _ in range(scn.get('calls', 1) - 1):
             holder['first_returned_env'] = got is env
             if scn.get('second_env') == 'fresh':
@@ -746,7 +765,7 @@ def shrink_candidates(scn):
     if ntask > 1:
         for k in range(ntask - 1, -1, -1):
             yield _drop_task(scn, k)
-    if scn['workers'] > 1:
+    if scn['workers'] > 1 and not scn.get('defaults'):
         new = copy.deepcopy(scn)
         new['workers'] = scn['workers'] - 1
         if new.get('fail_thread_start', 0) > new['workers']:
@@ -780,6 +799,10 @@ def shrink_candidates(scn):
     if scn.get('calls', 1) > 1:
         new = copy.deepcopy(scn)
         new['calls'] = 1
+        yield new
+    if scn.get('defaults'):
+        new = copy.deepcopy(scn)
+        del new['defaults']
         yield new
     if scn.get('fail_thread_start'):
         new = copy.deepcopy(scn)
@@ -817,6 +840,8 @@ def sched_facts(scn, res):
         facts['scenarios-cyclic'] = 1
     facts['workers:%d' % scn['workers']] = 1
     facts['graphs-built-via:%s' % scn.get('graph_api', 'add')] = 1
+    if scn.get('defaults'):
+        facts['scenarios-with-default-backend-env-config'] = 1
     if scn.get('calls', 1) > 1:
         facts['scenarios-scheduling-twice-on-one-backend'] = 1
     if scn.get('fail_thread_start'):
